@@ -202,7 +202,9 @@ impl<'a> Index<'a> {
 
 /// case uses features whose delivered records cannot be matched by unique name
 fn names_ambiguous(h: &Hist) -> bool {
-    h.labels.contains_key("trace_fn") || h.labels.contains_key("reentrant_closure")
+    // instrumented functions record spans with fixed names; closures that use the tracing API
+    // themselves are modelled operation by operation (see run_re) and need no exemption
+    h.labels.contains_key("trace_fn")
 }
 
 // ---------------------------------------------------------------------------------------------
@@ -942,6 +944,23 @@ pub fn c10(ix: &Index) -> Vec<Viol> {
                     .entry(e.name.as_ref())
                     .or_default()
                     .push((r.name.as_ref(), r.trace_id.0, r.span_id.0));
+            }
+        }
+    }
+    // a LocalCollector scope records what happens inside it, whatever scope encloses it: the
+    // collected set holds exactly the local spans entered in the scope
+    if !h.limit_hit {
+        for set in &h.sets {
+            let mut want: Vec<&str> = h.locals.iter().filter(|l| l.scope == set.scope).map(|l| l.name.as_str()).collect();
+            let mut got: Vec<&str> = set.snapshot.iter().map(|s| s.as_str()).collect();
+            want.sort();
+            got.sort();
+            if want != got {
+                out.push(v(
+                    "C10",
+                    "collector-scope-content",
+                    format!("a LocalCollector scope on vt{} (depth {}) recorded {} local spans, its collected set holds {}: {:?} vs {:?}", h.scopes[set.scope].vt, h.scopes[set.scope].depth, want.len(), got.len(), want.iter().take(4).collect::<Vec<_>>(), got.iter().take(4).collect::<Vec<_>>()),
+                ));
             }
         }
     }
@@ -2357,7 +2376,7 @@ pub fn c13(ix: &Index, prop: &'static str, sched: bool) -> Vec<Viol> {
     }
     for (ai, a) in h.adapters.iter().enumerate() {
         let want_kinds: &[AdapterKind] = if prop == "C13" {
-            &[AdapterKind::InSpan, AdapterKind::EnterOnPoll, AdapterKind::InSpanEnterOnPoll]
+            &[AdapterKind::InSpan, AdapterKind::EnterOnPoll, AdapterKind::InSpanEnterOnPoll, AdapterKind::TracedBoxed]
         } else {
             &[AdapterKind::Stream, AdapterKind::Sink, AdapterKind::DuplexViaStream, AdapterKind::DuplexViaSink]
         };
